@@ -84,6 +84,9 @@ func runC09(r *Run, p *Prog) {
 		for f := range a.inlinedHelpers {
 			isReader[f] = true // analysed as part of the readers that call it
 		}
+		if a.skipUntil != nil {
+			isReader[a.skipUntil] = true // the synthesised loop of reads (cursor.go: outlineSkipUntil), analysed where it is called
+		}
 		cg := BuildCallGraph(p)
 		var roots []*ssa.Function
 		for _, f := range p.FuncsOf(pkgIDL) {
@@ -131,6 +134,9 @@ func runC09(r *Run, p *Prog) {
 		}
 		for f := range a.inlinedHelpers {
 			readerFns[f] = true
+		}
+		if a.skipUntil != nil {
+			readerFns[a.skipUntil] = true
 		}
 		censusSkip = func(in ssa.Instruction) bool {
 			// slices and indexes of the input are O1's business - in the functions the cursor analysis covers. Anywhere
